@@ -1328,11 +1328,31 @@ impl G {
                         self.feed(vec![FR::Method(ch, m)], Term::Block);
                     }
                 }
-                4 | 5 => {
+                4 => {
                     if let Some(ch) = self.some_open() {
                         let l = self.body_len().min(100);
                         let fs = self.content(ch, 1, "", l, 0);
                         self.feed(fs, Term::Block);
+                    }
+                }
+                5 => {
+                    // a listener is installed (or replaced, or cleared) while a returned message is
+                    // half received: the message still completes and goes to whoever listens then
+                    if let Some(ch) = self.some_open() {
+                        let l = self.body_len().min(100).max(2);
+                        let mut fs = self.content(ch, 1, "", l, 0);
+                        let cut = self.rng.range(1, fs.len() as u64 - 1) as usize;
+                        let rest = fs.split_off(cut);
+                        self.feed(fs, Term::Block);
+                        match self.rng.below(3) {
+                            0 => self.w.cl_send_listener(ch, 0, None),
+                            _ => {
+                                let kind = self.rng.below(2) as u8;
+                                self.install_listener(ch, kind);
+                            }
+                        }
+                        self.w.event_chan(ch);
+                        self.feed(rest, Term::Block);
                     }
                 }
                 6 | 7 => {
